@@ -224,6 +224,13 @@ def gen_case(seed, tier, idx):
             if rng.random() < 0.7:
                 sel = [int(c) for c in rng.permutation(d)[: int(rng.integers(1, d + 1))]]   # order kept as drawn
         members.append({"key": keys[j], "cls": cls, "params": member_params(rng, cls, eager=warn_rich), "sel": sel})
+    x_none = kind == "stream" and idx % 10 == 3
+    if x_none:
+        # an ensemble of label-only detectors driven with X=None (the usual way to run concept-drift detectors): every member
+        # is updated with the labels all the same
+        for j in range(n):
+            cls = pick(rng, sorted(LABEL_ONLY))
+            members[j] = {"key": keys[j], "cls": cls, "params": member_params(rng, cls, eager=warn_rich), "sel": None}
     # clones (same class, parameters and columns under another key) report drift at the same update, so that vote
     # counts between 1 and n occur although most detectors show "drift" for a single update only
     for j in range(1, n):
@@ -266,7 +273,7 @@ def gen_case(seed, tier, idx):
             "election": el, "T": T, "cols": cols, "fn": fn, "fp": fp, "p1": p1, "reset_policy": reset_policy,
             "rows": int(pick(rng, [12, 20, 30])), "data_seed": int(rng.integers(2 ** 31)),
             "skip_first_setref": bool(rng.random() < 0.5), "pass_y_batch": bool(rng.random() < 0.3),
-            "inject": bool(rng.random() < 0.6),
+            "inject": bool(rng.random() < 0.6), "x_none": x_none,
             "n_cases": n_cases}
 
 
@@ -520,6 +527,8 @@ def run_case(case, stop_at=None):
         bad = None
         if case["inject"] and t >= 5 and rrng.random() < 0.03:
             bad = pick(rrng, ["narrow", "wide", "rows", "bad-y"] if stream else ["narrow", "wide", "rows"])
+            if case.get("x_none"):
+                bad = "bad-y"
             count("malformed updates injected")
         if stream:
             a = make_X(t, 1)
@@ -532,6 +541,10 @@ def run_case(case, stop_at=None):
             Xe = mk()
             f_e = lambda: ens.update(X=Xe, y_true=yt, y_pred=yp)
             f_t = lambda j, tw: tw.update(X=select(j, mk()), y_true=yt, y_pred=yp)
+            if case.get("x_none"):
+                f_e = lambda: ens.update(X=None, y_true=yt, y_pred=yp)
+                f_t = lambda j, tw: tw.update(X=None, y_true=yt, y_pred=yp)
+                count("updates with X=None")
         else:
             a = make_X(t, case["rows"])
             mk = malform(a, bad) if bad else (lambda: wrap(a))
